@@ -45,6 +45,11 @@ PENDING_REASON = "check not built yet in this round (see DESIGN.md section 8 for
 
 
 def main():
+    # property checks contributed as checks/cxx.manifest.json are included once listed in APPROVED
+    for pid in APPROVED:
+        f = os.path.join(HERE, "checks", pid.lower() + ".manifest.json")
+        if os.path.exists(f) and pid not in CLAIMED:
+            CLAIMED[pid] = json.load(open(f))
     checks = []
     for pid in ALL:
         if pid not in CLAIMED:
@@ -93,6 +98,7 @@ def main():
 
 
 NA = {}
+APPROVED = []
 
 if __name__ == "__main__":
     main()
